@@ -811,14 +811,14 @@ func c40Check(c *stat.Collector, rt stat.Fataler, plan c40Plan, run c40Run) (nt 
 				c.Fail(rt, "C40.stored-version", fmt.Sprintf("%s: server stores version %s, the successfully saved entity has %d", where, o.StoredVer, o.ModelVer), plan)
 			}
 			if o.Diff != "" {
-				if os.Getenv("C40_DEBUG") != "" {
+				if d := os.Getenv("C40_DEBUG"); d != "" {
 					var sb strings.Builder
 					for _, e := range run.Events {
 						sb.WriteString(e.String() + "\n")
 					}
-					os.WriteFile("/var/tmp/lk394/c40-events.txt", []byte(sb.String()), 0o644)
-					os.WriteFile("/var/tmp/lk394/c40-plan.json", []byte(c40J2(plan)), 0o644)
-					os.WriteFile("/var/tmp/lk394/c40-obs.json", []byte(c40J2(run.Obs)), 0o644)
+					os.WriteFile(d+"/c40-events.txt", []byte(sb.String()), 0o644)
+					os.WriteFile(d+"/c40-plan.json", []byte(c40J2(plan)), 0o644)
+					os.WriteFile(d+"/c40-obs.json", []byte(c40J2(run.Obs)), 0o644)
 				}
 				c.Fail(rt, "C40.fetch-round-trip", fmt.Sprintf("%s: fetched entity differs from the last successfully saved one: %s", where, o.Diff), plan)
 			}
